@@ -357,7 +357,7 @@ def py_conformant(h):
                 return False
             opened.discard(u)
         elif op[0] == 'c':
-            if u not in opened or not op[2]:
+            if u not in opened:
                 return False
         elif u not in opened:
             return False
@@ -415,95 +415,137 @@ def check_store(rng, quick, docs_dir, stats):
 
 # ---------------------------------------------------------------- (iii) contentChanges over stdio
 
-def stdio_session(msgs, work, name, timeout=10.0):
-    """msgs: list of ('open',uri,text) | ('change',uri,[texts]) | ('hover',uri,l,c) | ('close',uri).
-    returns (answers, died, exit code): answers[i] = diagnostics / result / None (no answer)"""
+def stdio_run(st, h, outs, work, name, timeout=10.0):
+    """one session with the lelwel-ls binary, paced by the model's outputs (what to wait for).
+    h: model ops (changes with any number of entries); outs: the model's output words per message.
+    returns (None | description of the first difference, died)"""
     cl = k6.LspClient(stderr_path=os.path.join(work, name + '.txt'), timeout=timeout)
-    answers = []
+    stray = []
     died = False
     try:
         cl.start()
         cl.initialize()
-        for v, m in enumerate(msgs):
+        for v, (op, mo) in enumerate(zip(h, outs)):
+            w = mo.split()
+            uri = st.uris[op[1] if op[0] != 'r' else op[2]]
+            want = None
             try:
-                if m[0] == 'open':
-                    cl.notify('textDocument/didOpen', {'textDocument': {'uri': m[1], 'languageId': 'lelwel', 'version': v, 'text': m[2]}})
-                    want = 'diag'
-                elif m[0] == 'change':
-                    cl.notify('textDocument/didChange', {'textDocument': {'uri': m[1], 'version': v}, 'contentChanges': [{'text': t} for t in m[2]]})
-                    want = 'diag'
-                elif m[0] == 'close':
-                    cl.notify('textDocument/didClose', {'textDocument': {'uri': m[1]}})
-                    answers.append(None)
-                    continue
+                if op[0] == 'o':
+                    cl.notify('textDocument/didOpen', {'textDocument': {'uri': uri, 'languageId': 'lelwel', 'version': v, 'text': st.pool[op[2]]}})
+                elif op[0] == 'c':
+                    cl.notify('textDocument/didChange', {'textDocument': {'uri': uri, 'version': v}, 'contentChanges': [{'text': st.pool[t]} for t in op[2]]})
+                elif op[0] == 'x':
+                    cl.notify('textDocument/didClose', {'textDocument': {'uri': uri}})
                 else:
-                    want = cl.request(k6.METHODS[m[0]], {'textDocument': {'uri': m[1]}, 'position': {'line': m[2], 'character': m[3]}})
+                    params = {'textDocument': {'uri': uri}, 'position': {'line': op[3], 'character': op[4]}}
+                    if op[1] == 'references':
+                        params['context'] = {'includeDeclaration': True}
+                    if op[1] == 'formatting':
+                        params = {'textDocument': {'uri': uri}, 'options': {'tabSize': 4, 'insertSpaces': True}}
+                    want = cl.request(k6.METHODS[op[1]], params)
+                if w[0] == 'S':
+                    continue
+                if w[0] == 'C' and want is None:
+                    return ('model crash at a notification cannot be observed: %r' % (op,), died)
                 while True:
-                    msg = cl.recv(timeout=3.0 if died else timeout)
-                    if want == 'diag' and msg.get('method') == 'textDocument/publishDiagnostics':
-                        answers.append(msg['params']['diagnostics'])
+                    msg = cl.recv()
+                    if w[0] == 'P' and msg.get('method') == 'textDocument/publishDiagnostics':
+                        got = norm(msg['params']['diagnostics'], uri)
+                        if msg['params'].get('uri') != uri or got != st.canon_diag[int(w[2])]:
+                            who = [k for k, x in st.canon_diag.items() if x == got]
+                            return ('message %d %r: model publishes from pool text %s, lelwel-ls publishes for %s the diagnostics of pool text %s'
+                                    % (v, op, w[2], msg['params'].get('uri'), who or got[:200]), died)
                         break
-                    if want != 'diag' and msg.get('id') == want and 'method' not in msg:
-                        answers.append(msg.get('result'))
+                    if want is not None and msg.get('id') == want and 'method' not in msg:
+                        if w[0] == 'C':
+                            return ('message %d %r: model says the server panics, lelwel-ls answers %s' % (v, op, norm(msg.get('result'), uri)[:200]), died)
+                        p = (op[1], op[3], op[4])
+                        got = norm(msg.get('result'), uri)
+                        if got != st.canon_ans[(int(w[3]), p)]:
+                            who = [ti for ti in range(len(st.pool)) if st.canon_ans[(ti, p)] == got]
+                            return ('message %d %r: model answers from pool text %s, lelwel-ls answers as for pool text %s' % (v, op, w[3], who or got[:200]), died)
                         break
+                    stray.append(msg)
             except k6.ServerDied:
                 died = True
-                answers.append('died')
-                break
+                if w[0] != 'C':
+                    return ('message %d %r: lelwel-ls died (exit %r), model: %s' % (v, op, cl.exit_code(5.0), mo), died)
+                return (None, died)      # the session ends at the crash, as the model says
             except k6.RequestTimeout:
-                answers.append('timeout')
-                break
-        code = None
-        if died:
-            code = cl.exit_code(5.0)
+                return ('message %d %r: no answer from lelwel-ls within %.0f s, model: %s' % (v, op, timeout, mo), died)
+        # nothing may be left over: ask for shutdown and look at what arrives before its answer
+        try:
+            sid = cl.request('shutdown', None)
+            while True:
+                msg = cl.recv()
+                if msg.get('id') == sid and 'method' not in msg:
+                    break
+                stray.append(msg)
+            cl.notify('exit', None)
+        except (k6.ServerDied, k6.RequestTimeout):
+            return ('lelwel-ls died or hung at shutdown after a session the model survives', True)
+        if stray:
+            return ('messages from lelwel-ls the model has no output for: %s' % json.dumps(stray)[:400], died)
+        return (None, died)
     finally:
         cl.kill()
-    return answers, died, code
 
 
-def check_content_changes(st, work, stats):
-    """model (theorems change_without_document_opens, empty_change_crashes, multi_entry_change_uses_first_refuted,
-    request_without_document_crashes) against the lelwel-ls binary"""
-    u = st.uris[0]
-    P = ('hover', 0, 3)
+def multi_history(st, rng, maxlen):
+    """conformant history whose changes carry 0..3 entries"""
+    opened = set()
+    h = []
+    n = rng.randrange(3, maxlen + 1)
+    while len(h) < n:
+        u = rng.randrange(len(st.uris))
+        if u not in opened:
+            h.append(('o', u, rng.randrange(len(st.pool))))
+            opened.add(u)
+            continue
+        x = rng.random()
+        if x < 0.4:
+            h.append(('c', u, [rng.randrange(len(st.pool)) for _ in range(rng.choice([0, 1, 2, 2, 3]))]))
+        elif x < 0.5:
+            h.append(('x', u))
+            opened.discard(u)
+        else:
+            k, l, c = rng.choice(PROBES[:6])
+            h.append(('r', k, u, l, c))
+    return h
+
+
+def check_content_changes(st, rng, quick, work, stats):
+    """changes with several or no entries, requests without document: the model (theorems
+    C20_change_published_from_latest_text, C20_empty_change_is_silent, C20_request_without_document_crashes,
+    change_without_document_opens) against the lelwel-ls binary over stdio"""
+    fixed = [
+        ('several_entries', [('o', 0, 1), ('c', 0, [2, 3]), ('r', 'hover', 0, 0, 3)]),
+        ('no_entry', [('o', 0, 1), ('c', 0, []), ('r', 'hover', 0, 0, 3), ('c', 0, [4]), ('r', 'completion', 0, 0, 3)]),
+        ('request_without_document', [('r', 'hover', 1, 0, 0)]),
+        ('request_after_close', [('o', 1, 5), ('x', 1), ('r', 'completion', 1, 0, 3)]),
+        ('change_without_open', [('c', 2, [4, 6]), ('r', 'hover', 2, 0, 3)]),
+        ('empty_change_without_open', [('c', 3, []), ('o', 3, 7), ('r', 'hover', 3, 0, 3)]),
+    ]
+    hs = fixed + [('random', multi_history(st, rng, 12)) for _ in range(25 if quick else 200)]
+    mo = run_model(st.text_lines() + [st.model_line(h) for _, h in hs])
     bad = []
-    findings = []
-
-    def diag(ti):
-        return st.canon_diag[ti]
-
-    # several entries: the model (and the theorem) say the FIRST is used
-    a, died, code = stdio_session([('open', u, st.pool[1]), ('change', u, [st.pool[2], st.pool[3]]), ('hover', u, 0, 3)], work, 'cc_multi')
-    stats['stdio_sessions'] += 1
-    ml = run_model(st.text_lines() + ['H o 0 1;c 0 2 3;r 0 0 0 3'])[0]
-    if died or len(a) != 3 or norm(a[1], u) != diag(2) or norm(a[2], u) != st.canon_ans[(2, P)]:
-        bad.append({'kind': 'content_changes_multi', 'model': ml, 'impl_answers': a, 'died': died})
-    else:
-        findings.append({'id': 'LSP-F1', 'what': 'didChange with two contentChanges entries (full texts T2, T3): the server publishes and answers from the FIRST entry (T2); '
-                         'by the protocol the entries apply in order, so the latest text is the LAST (T3). Model: theorem C20_multi_entry_change_uses_first_refuted; '
-                         'confirmed on the lelwel-ls binary over stdio', 'input': {'open': st.pool[1], 'contentChanges': [st.pool[2], st.pool[3]], 'hover': [0, 3]},
-                         'observed_hover': a[2], 'model': ml})
-    # no entry: panic
-    a, died, code = stdio_session([('open', u, st.pool[1]), ('change', u, []), ('hover', u, 0, 3)], work, 'cc_empty')
-    stats['stdio_sessions'] += 1
-    if not died:
-        bad.append({'kind': 'content_changes_empty', 'model': 'Crash (empty_change_crashes)', 'impl_answers': a})
-    else:
-        findings.append({'id': 'LSP-F2', 'what': 'didChange with an empty contentChanges array kills the server (unwrap on None, lelwel-ls.rs DidChangeTextDocument::handle); '
-                         'model: theorem C20_empty_change_crashes; outside the protocol-conformant histories of C20', 'exit_status': code})
-    # request without document: panic
-    a, died, code = stdio_session([('hover', st.uris[1], 0, 0)], work, 'req_closed')
-    stats['stdio_sessions'] += 1
-    if not died:
-        bad.append({'kind': 'request_without_document', 'model': 'Crash (request_without_document_crashes)', 'impl_answers': a})
-    else:
-        findings.append({'id': 'LSP-F3', 'what': 'a request for a document that is not open kills the server (Cache::hover etc. unwrap the map lookup); '
-                         'model: theorem C20_request_without_document_crashes; outside the protocol', 'exit_status': code})
-    # change without open: opens
-    a, died, code = stdio_session([('change', st.uris[2], [st.pool[4]]), ('hover', st.uris[2], 0, 3)], work, 'chg_closed')
-    stats['stdio_sessions'] += 1
-    if died or len(a) != 2 or norm(a[0], st.uris[2]) != diag(4) or norm(a[1], st.uris[2]) != st.canon_ans[(4, P)]:
-        bad.append({'kind': 'change_without_document', 'model': 'behaves as open (change_without_document_opens)', 'impl_answers': a, 'died': died})
+    for k, ((name, h), ml) in enumerate(zip(hs, mo)):
+        outs = ml.split(' | ')[1].split(';')
+        stats['stdio_sessions'] += 1
+        stats['stdio_messages'] += len(h)
+        for op in h:
+            if op[0] == 'c':
+                stats['stdio_change_entries_%d' % len(op[2])] += 1
+        d, died = stdio_run(st, h, outs, work, 'm%03d' % k)
+        if died:
+            stats['stdio_sessions_server_died_as_model_says'] += 1
+        if d is not None:
+            bad.append({'kind': 'stdio_' + name, 'history': h, 'model': ml, 'what': d})
+    findings = [
+        {'id': 'LSP-F3', 'what': 'a request for a document that is not open kills the server (Cache::hover etc. unwrap the map lookup); model: theorems '
+         'C20_request_without_document_crashes, C20_request_on_closed_document_refuted; outside the protocol-conformant histories; confirmed on lelwel-ls in this run: %s'
+         % (not [b for b in bad if 'request' in b['kind']])},
+    ]
     return bad, findings
 
 
@@ -601,7 +643,7 @@ def run(ck, work, realistic=(), rng=None):
     bad += b2
     timing['store'] = round(time.time() - t1, 1)
     t1 = time.time()
-    b3, findings = check_content_changes(st, work, stats)
+    b3, findings = check_content_changes(st, rng, quick, work, stats)
     bad += b3
     timing['stdio'] = round(time.time() - t1, 1)
     t1 = time.time()
